@@ -7,7 +7,7 @@ mkdir -p .cache evidence replays
 cp /repo/Cargo.lock tools/astdump/Cargo.lock 2>/dev/null || true
 cp /repo/Cargo.lock native/Cargo.lock 2>/dev/null || true
 (cd tools/astdump && CARGO_TARGET_DIR=/verif/.cache/astdump cargo build --quiet)
-(cd native && RUSTFLAGS="--cfg tauri_typegen_verif" CARGO_TARGET_DIR=/verif/.cache/native cargo build --quiet)
-(cd /repo && RUSTFLAGS="--cfg tauri_typegen_verif" CARGO_TARGET_DIR=/verif/.cache/native cargo build --quiet --bin cargo-tauri-typegen)
+(cd native && CARGO_TARGET_DIR=/verif/.cache/native cargo build --quiet)
+(cd /repo && CARGO_TARGET_DIR=/verif/.cache/native cargo build --quiet --bin cargo-tauri-typegen)
 python3-vt -c "import z3; print('z3', z3.get_version_string())"
 echo setup ok
